@@ -38,6 +38,7 @@ Definition resolveAbsoluteImport_o (o : opts) (pr : project) (p : path) : option
   if init_file_exists pr p then Some p
   else if py_file_exists pr p then Some p
   else if isStandardLibrary p then (if o_stdlib o then Some p else None)
+  else if dir_exists pr p then Some p
   else if o_third o then Some p else None.
 
 (* resolveAbsoluteImportWithProject (module_analyzer.go:437-490) *)
@@ -108,7 +109,7 @@ Definition analyze_import_o (o : opts) (pr : project) (m : pymodule) (g : graph)
             (resolved_modules_o o pr g m ii) g.
 
 Definition analyzeModuleDependencies_o (o : opts) (pr : project) (g : graph) (m : pymodule) : graph :=
-  fold_left (analyze_import_o o pr m) (collectModuleImports m) g.
+  if shadowed pr m then g else fold_left (analyze_import_o o pr m) (collectModuleImports m) g.
 
 Definition AnalyzeFiles_o (o : opts) (pr : project) (order : list pymodule) : graph :=
   fold_left (analyzeModuleDependencies_o o pr) order (empty_graph pr).
